@@ -1,5 +1,19 @@
 (* DBProofsOps.v -- the operation theorems of the database model instantiated with the flat
-   reference index: Put, Delete, Get, GetAppend, Has, Count, Items, Sync. *)
+   reference index: Put, Delete, Get, GetAppend, Has, Count, Items, Sync.  No axioms
+   (Print Assumptions at the end of the file: all "Closed under the global context").
+
+   Theorems (P : params, s : st = @DB.st flat):
+     put_ok, put_rejected, delete_ok, get_ok, get_append_ok, has_ok, count_ok, items_ok, sync_ok
+       -- as specified; [params_ok P] is a hypothesis of put_ok / delete_ok but is not used by the
+          proofs (the side condition [room] already bounds every offset);
+     put_ok_ex, delete_ok_ex
+       -- the same in "exists s', db_put ... = (s', OOk) /\ ..." form, plus the shape of the trace
+          (pre ++ [EAppend ..; EIndex ..] ++ post, with [wr_pre_shape pre id seq] and post = [] or
+          one ESync), the disk as a fold of the events, and [olog] before / after the append:
+          what the crash proofs need.
+   Helper lemmas: Inv_open, Inv_intro, Inv_same, idx_agrees_same_log, idx_keys, read_slots_spec,
+     do_sync_spec, finish_spec, olog_keep, olog_new, put_index, fl_del_hit, del_absent, del_found,
+     del_index. *)
 From Coq Require Import ZArith Lia ZifyN ZifyNat ZifyBool Permutation.
 From Pogreb Require Import Base BaseLemmas Crc Bytes Record RecordProofs Flat Spec DB DBInv DBLemmas.
 Ltac Zify.zify_post_hook ::= Z.div_mod_to_equations.
@@ -156,3 +170,309 @@ Proof.
   split; [reflexivity|]. split; [|split; [exact E2|congruence]].
   apply (Inv_same P s); [congruence|exact E2|exact HI].
 Qed.
+
+(* ================================================================================================ *)
+(* Put                                                                                                *)
+Lemma finish_spec P (s : st) (m : mem) :
+  exists s', finish flat_ops P s m = (s', OOk) /\ s_mem s' = Some m /\ s_disk s' = s_disk s /\
+    (s_trace s' = s_trace s \/ exists id seq, s_trace s' = s_trace s ++ [ESync (FSeg id seq)]).
+Proof.
+  unfold finish. eexists. split; [reflexivity|]. split; [reflexivity|].
+  cbn [s_disk s_trace with_mem]. destruct (p_sync P).
+  - destruct (do_sync_spec s m) as (_ & E2 & E3). split; assumption.
+  - split; [reflexivity|left; reflexivity].
+Qed.
+
+Lemma olog_keep (d d1 : disk) e :
+  DiskOK d -> DiskOK d1 -> olog d1 = olog d ++ [e] ->
+  forall id off r, rec_of d id off = Some r -> rec_of d1 id off = Some r.
+Proof.
+  intros Hd Hd1 Eo id off r H. apply rec_of_olog; [apply Hd1|]. rewrite Eo.
+  apply in_or_app. left. apply rec_of_olog; [apply Hd|exact H].
+Qed.
+
+Lemma olog_new (d d1 : disk) id off r :
+  DiskOK d1 -> olog d1 = olog d ++ [(id, off, r)] -> rec_of d1 id off = Some r.
+Proof.
+  intros Hd1 Eo. apply rec_of_olog; [apply Hd1|]. rewrite Eo. apply in_or_app. right. left. reflexivity.
+Qed.
+
+(* the index after a put *)
+Lemma put_index P seed idx (d d1 : disk) id off k v grow i2 old :
+  DiskOK d -> DiskOK d1 -> idx_agrees P seed idx d ->
+  olog d1 = olog d ++ [(id, off, mkput k v)] ->
+  nlen k <= max_key_len -> nlen v <= max_val_len ->
+  fl_put grow idx {| sl_h := p_hash P seed k; sl_seg := id; sl_ks := u16 (nlen k);
+                     sl_vs := u32 (nlen v); sl_off := off |} (matchf d1 k) = (i2, old) ->
+  idx_agrees P seed i2 d1.
+Proof.
+  intros Hd Hd1 (Hok & Hnd & Hptr) Eo Hk Hv Eput.
+  pose proof (olog_keep d d1 _ Hd Hd1 Eo) as Hkeep.
+  pose proof (olog_new d d1 _ _ _ Hd1 Eo) as Hnew.
+  set (sl := {| sl_h := p_hash P seed k; sl_seg := id; sl_ks := u16 (nlen k);
+                sl_vs := u32 (nlen v); sl_off := off |}) in *.
+  assert (Hsl : slot_ok P d1 seed sl).
+  { apply slot_ok_rec_of. exists (mkput k v). cbn [sl sl_seg sl_off sl_ks sl_vs sl_h mkput rk rv rdel].
+    consts. rewrite u16_small, u32_small by lia. repeat split; auto. }
+  destruct (idx_keys_keep P d d1 seed idx Hkeep Hok) as (Hok1 & Hmap & Hfind).
+  set (kf := slot_key d1) in *.
+  assert (Hkf : kf sl = k).
+  { destruct (slot_ok_read P d1 seed sl Hsl) as (r & Er & _ & _ & _ & _ & _ & Ek).
+    unfold kf. rewrite Ek. cbn [sl sl_seg sl_off] in Er. rewrite Hnew in Er. inversion Er. reflexivity. }
+  assert (Hptr1 : forall k', ptr_of d1 k' =
+            if key_eqb k' k then Some (id, off)
+            else option_map (fun sl => (sl_seg sl, sl_off sl)) (find (khit kf k') idx)).
+  { intros k'. rewrite (ptr_of_snoc d d1 _ Eo), upd_ptr_eq. cbn [fst snd mkput rk rdel].
+    rewrite Hptr, Hfind. reflexivity. }
+  unfold fl_put in Eput. cbn [sl sl_h] in Eput.
+  rewrite (fl_replace_ext_in _ (khit kf k) sl idx) in Eput.
+  2:{ intros x Hx. fa Hok1 x Hx. apply hit_key; assumption. }
+  destruct (fl_replace (khit kf k) sl idx) as [[l' o]|] eqn:Er; inversion Eput; subst i2 old.
+  - destruct (fl_replace_Some kf k sl idx l' o Hkf Er) as (A1 & A2 & A3 & A4 & A5).
+    split; [|split].
+    + apply Forall_forall. intros x Hx. destruct (A4 x Hx) as [->|Hx']; [exact Hsl|].
+      exact (proj1 (Forall_forall _ _) Hok1 x Hx').
+    + fold kf. rewrite A3, Hmap. exact Hnd.
+    + intros k'. fold kf. rewrite Hptr1, A5. destruct (key_eqb k' k); reflexivity.
+  - pose proof (fl_replace_None _ _ _ Er) as Hno.
+    split; [|split].
+    + apply Forall_app. split; [exact Hok1|]. constructor; [exact Hsl|constructor].
+    + fold kf. rewrite map_app. cbn [map]. apply NoDup_snoc; [rewrite Hmap; exact Hnd|].
+      rewrite Hkf. intros HIn. apply in_map_iff in HIn. destruct HIn as (x & Ex & Hx).
+      pose proof (Hno x Hx) as Hf. unfold khit in Hf. rewrite Ex, key_eqb_refl in Hf. discriminate.
+    + intros k'. fold kf. rewrite Hptr1, (find_khit_snoc kf k sl idx k' Hno Hkf).
+      destruct (key_eqb k' k); reflexivity.
+Qed.
+
+(* Put, with everything the crash proofs need about the events *)
+Theorem put_ok_ex P (s : st) k v :
+  params_ok P -> Inv P s -> (exists m, s_mem s = Some m /\ room m) ->
+  Forall byte k -> Forall byte v -> nlen k <= max_key_len -> nlen v <= max_val_len ->
+  exists s', db_put flat_ops P k v s = (s', OOk) /\ Inv P s' /\ s_mem s' <> None /\
+    (forall k', sget (abs (s_disk s')) k' = if key_eqb k' k then Some v else sget (abs (s_disk s)) k') /\
+    exists id seq off pre i2 post,
+      s_trace s' = s_trace s ++ pre ++ [EAppend id seq off (mkput k v); EIndex i2] ++ post /\
+      wr_pre_shape pre id seq /\ (post = [] \/ exists i q, post = [ESync (FSeg i q)]) /\
+      olog (fold_left (apply_ev flat_ops) pre (s_disk s)) = olog (s_disk s) /\
+      olog (s_disk s') = olog (s_disk s) ++ [(id, off, mkput k v)] /\
+      s_disk s' = fold_left (apply_ev flat_ops) (pre ++ [EAppend id seq off (mkput k v); EIndex i2]) (s_disk s).
+Proof.
+  intros HP HI (m & Em & Hroom) Hbk Hbv Hk Hv.
+  destruct (Inv_open P s m Em HI) as (HL & Hidx & Hlock & Hindex & Hovf).
+  assert (Hd : DiskOK (s_disk s)) by apply HL.
+  assert (Hr : rec_fits (mkput k v)) by (apply rec_fits_mkput; assumption).
+  destruct (write_record_spec P (mkput k v) s m HP HL Hroom Hr)
+    as (s1 & m1 & id & off & Ew & HL1 & Eo & Hoff & _ & _ & _ & _ & Ei & Esd & Em1 & Hrest & seq & pre & Et & Ed & Eop & _ & Hshape).
+  assert (Hd1 : DiskOK (s_disk s1)) by apply HL1.
+  unfold db_put. rewrite Em.
+  rewrite (proj2 (N.ltb_ge _ _) Hk), (proj2 (N.ltb_ge _ _) Hv), Ew.
+  cbn [ix_put flat_ops].
+  destruct (fl_put (p_grow P) (m_idx m1) _ (matchf (s_disk s1) k)) as [i2 old] eqn:Eput.
+  rewrite Ei in Eput.
+  pose proof (put_index P (m_seed m) (m_idx m) (s_disk s) (s_disk s1) id off k v _ i2 old Hd Hd1 Hidx Eo Hk Hv Eput) as Hidx2.
+  set (m2 := match old with Some o => track_del o m1 | None => m1 end).
+  assert (Hsim : mem_sim m1 m2) by (unfold m2; destruct old; [apply mem_sim_track_del|apply mem_sim_refl]).
+  assert (Eseed2 : m_seed m2 = m_seed m) by (unfold m2; destruct old; exact Esd).
+  destruct (finish_spec P (emit flat_ops (EIndex i2) s1) (set_idx m2 i2)) as (s' & Ef & Ems' & Eds' & Ets').
+  rewrite Ef. exists s'. split; [reflexivity|].
+  rewrite s_disk_emit in Eds'.
+  assert (Hsl : same_log (s_disk s1) (s_disk s')) by (rewrite Eds'; apply same_log_segs; reflexivity).
+  destruct Hrest as (_ & _ & Ro & _ & _ & Rl & _).
+  split; [|split; [congruence|split]].
+  - apply (Inv_intro P s' (set_idx m2 i2) Ems').
+    + apply (InvLog_same_log _ _ _ Hsl). apply set_idx_InvLog. apply (mem_sim_InvLog _ _ _ Hsim HL1).
+    + cbn [m_seed m_idx set_idx]. rewrite Eseed2. apply (idx_agrees_same_log _ _ _ _ _ Hsl Hidx2).
+    + rewrite Eds'. cbn [apply_ev d_lock set_index]. congruence.
+    + rewrite Eds'. reflexivity.
+    + rewrite Eds'. cbn [apply_ev d_overflow set_index]. congruence.
+  - intros k'. rewrite (same_log_abs _ _ Hsl), (abs_snoc _ _ _ Eo), sget_apply_rec. reflexivity.
+  - exists id, seq, off, pre, i2.
+    assert (Et1 : s_trace (emit flat_ops (EIndex i2) s1) =
+                  s_trace s ++ pre ++ [EAppend id seq off (mkput k v); EIndex i2]).
+    { rewrite s_trace_emit, Et, <- !app_assoc. reflexivity. }
+    assert (Ed' : s_disk s' = fold_left (apply_ev flat_ops) (pre ++ [EAppend id seq off (mkput k v); EIndex i2]) (s_disk s)).
+    { rewrite Eds', Ed, !fold_left_app. reflexivity. }
+    destruct Ets' as [Ets'|(i & q & Ets')].
+    + exists []. rewrite app_nil_r. split; [congruence|]. split; [exact Hshape|]. split; [left; reflexivity|].
+      split; [exact Eop|]. split; [rewrite (same_log_olog _ _ Hsl); exact Eo|exact Ed'].
+    + exists [ESync (FSeg i q)]. split; [rewrite Ets', Et1, <- !app_assoc; reflexivity|].
+      split; [exact Hshape|]. split; [right; eauto|].
+      split; [exact Eop|]. split; [rewrite (same_log_olog _ _ Hsl); exact Eo|exact Ed'].
+Qed.
+
+Theorem put_ok P (s : st) k v :
+  params_ok P -> Inv P s -> (exists m, s_mem s = Some m /\ room m) ->
+  Forall byte k -> Forall byte v -> nlen k <= max_key_len -> nlen v <= max_val_len ->
+  let '(s', o) := db_put flat_ops P k v s in
+  o = OOk /\ Inv P s' /\ s_mem s' <> None /\
+  (forall k', sget (abs (s_disk s')) k' = if key_eqb k' k then Some v else sget (abs (s_disk s)) k').
+Proof.
+  intros HP HI Hm Hbk Hbv Hk Hv.
+  destruct (put_ok_ex P s k v HP HI Hm Hbk Hbv Hk Hv) as (s' & E & H1 & H2 & H3 & _).
+  rewrite E. auto.
+Qed.
+
+(* state, files and trace untouched *)
+Theorem put_rejected P (s : st) k v :
+  s_mem s <> None -> (max_key_len < nlen k \/ max_val_len < nlen v) ->
+  exists e, db_put flat_ops P k v s = (s, OErr e).
+Proof.
+  intros Hm H. unfold db_put. destruct (s_mem s) as [m|]; [|congruence].
+  destruct (N.ltb_spec max_key_len (nlen k)) as [Hk|Hk]; [eexists; reflexivity|].
+  destruct (N.ltb_spec max_val_len (nlen v)) as [Hv|Hv]; [eexists; reflexivity|].
+  exfalso. lia.
+Qed.
+
+(* ================================================================================================ *)
+(* Delete                                                                                             *)
+Lemma fl_del_hit P seed idx (d : disk) k :
+  DiskOK d -> Forall (slot_ok P d seed) idx ->
+  fl_del idx (p_hash P seed k) (matchf d k) =
+  match fl_remove (khit (slot_key d) k) idx with Some (l', o) => (l', Some o) | None => (idx, None) end.
+Proof.
+  intros Hd Hok. unfold fl_del. rewrite (fl_remove_ext_in _ (khit (slot_key d) k) idx); [reflexivity|].
+  intros x Hx. fa Hok x Hx. apply hit_key; assumption.
+Qed.
+
+Lemma del_absent P seed idx (d : disk) k i1 :
+  DiskOK d -> idx_agrees P seed idx d ->
+  fl_del idx (p_hash P seed k) (matchf d k) = (i1, None) -> i1 = idx /\ sget (abs d) k = None.
+Proof.
+  intros Hd Hidx E. rewrite (fl_del_hit P seed idx d k Hd (proj1 Hidx)) in E.
+  destruct (fl_remove (khit (slot_key d) k) idx) as [[l' o]|] eqn:Er; [discriminate|].
+  inversion E; subst i1. split; [reflexivity|].
+  pose proof (fl_remove_None _ _ Er) as Hno. pose proof (idx_lookup P seed idx d k Hd Hidx) as Hlk.
+  rewrite (proj2 (find_khit_None (slot_key d) k idx)) in Hlk; [exact Hlk|].
+  intros HIn. apply in_map_iff in HIn. destruct HIn as (x & Ex & Hx). pose proof (Hno x Hx) as Hf.
+  unfold khit in Hf. rewrite Ex, key_eqb_refl in Hf. discriminate.
+Qed.
+
+Lemma del_found P seed idx (d : disk) k i1 o :
+  DiskOK d -> idx_agrees P seed idx d ->
+  fl_del idx (p_hash P seed k) (matchf d k) = (i1, Some o) ->
+  nlen k <= max_key_len /\ sget (abs d) k <> None.
+Proof.
+  intros Hd Hidx E. pose proof Hidx as (Hok & Hnd & _). rewrite (fl_del_hit P seed idx d k Hd Hok) in E.
+  destruct (fl_remove (khit (slot_key d) k) idx) as [[l' o']|] eqn:Er; [|discriminate].
+  inversion E; subst i1 o'. destruct (fl_remove_Some _ _ _ _ _ Hnd Er) as (A1 & A2 & _).
+  fa Hok o A1. destruct (slot_ok_read P d seed o Hfa) as (r & Er' & _ & _ & _ & _ & _ & Ek).
+  split.
+  - pose proof (rec_of_rec_fits d _ _ r Hd Er') as (_ & _ & Hlen & _). congruence.
+  - intros Hn. apply sget_None in Hn. apply Hn. apply (idx_keys P seed idx d k Hd Hidx).
+    rewrite <- A2. apply in_map. exact A1.
+Qed.
+
+(* the index after a delete *)
+Lemma del_index P seed idx (d d1 : disk) id off k i1 o :
+  DiskOK d -> DiskOK d1 -> idx_agrees P seed idx d ->
+  olog d1 = olog d ++ [(id, off, mkdel k)] ->
+  fl_del idx (p_hash P seed k) (matchf d k) = (i1, Some o) ->
+  idx_agrees P seed i1 d1.
+Proof.
+  intros Hd Hd1 (Hok & Hnd & Hptr) Eo E.
+  pose proof (olog_keep d d1 _ Hd Hd1 Eo) as Hkeep.
+  rewrite (fl_del_hit P seed idx d k Hd Hok) in E.
+  destruct (fl_remove (khit (slot_key d) k) idx) as [[l' o']|] eqn:Er; [|discriminate].
+  inversion E; subst i1 o'. destruct (fl_remove_Some _ _ _ _ _ Hnd Er) as (A1 & A2 & A3 & A4 & A5).
+  assert (Hok' : Forall (slot_ok P d seed) l').
+  { apply Forall_forall. intros x Hx. exact (proj1 (Forall_forall _ _) Hok x (A3 x Hx)). }
+  destruct (idx_keys_keep P d d1 seed l' Hkeep Hok') as (Hok1 & Hmap & Hfind).
+  split; [exact Hok1|]. split; [rewrite Hmap; exact A4|].
+  intros k'. rewrite (ptr_of_snoc d d1 _ Eo), upd_ptr_eq. cbn [fst snd mkdel rk rdel].
+  rewrite Hfind, A5, Hptr. destruct (key_eqb k' k); reflexivity.
+Qed.
+
+Theorem delete_ok_ex P (s : st) k :
+  params_ok P -> Inv P s -> (exists m, s_mem s = Some m /\ room m) -> Forall byte k ->
+  exists s', db_delete flat_ops P k s = (s', OOk) /\ Inv P s' /\ s_mem s' <> None /\
+    (forall k', sget (abs (s_disk s')) k' = if key_eqb k' k then None else sget (abs (s_disk s)) k') /\
+    (sget (abs (s_disk s)) k = None -> s_disk s' = s_disk s) /\
+    ((* absent key: at most a Sync *)
+     (sget (abs (s_disk s)) k = None /\ s_disk s' = s_disk s /\
+      (s_trace s' = s_trace s \/ exists i q, s_trace s' = s_trace s ++ [ESync (FSeg i q)])) \/
+     (* present key: the events of the write *)
+     (sget (abs (s_disk s)) k <> None /\ nlen k <= max_key_len /\
+      exists id seq off pre i1 post,
+        s_trace s' = s_trace s ++ pre ++ [EAppend id seq off (mkdel k); EIndex i1] ++ post /\
+        wr_pre_shape pre id seq /\ (post = [] \/ exists i q, post = [ESync (FSeg i q)]) /\
+        olog (fold_left (apply_ev flat_ops) pre (s_disk s)) = olog (s_disk s) /\
+        olog (s_disk s') = olog (s_disk s) ++ [(id, off, mkdel k)] /\
+        s_disk s' = fold_left (apply_ev flat_ops) (pre ++ [EAppend id seq off (mkdel k); EIndex i1]) (s_disk s))).
+Proof.
+  intros HP HI (m & Em & Hroom) Hbk.
+  destruct (Inv_open P s m Em HI) as (HL & Hidx & Hlock & Hindex & Hovf).
+  assert (Hd : DiskOK (s_disk s)) by apply HL.
+  unfold db_delete. rewrite Em. cbn [ix_del flat_ops].
+  destruct (fl_del (m_idx m) (p_hash P (m_seed m) k) (matchf (s_disk s) k)) as [i1 old] eqn:Edel.
+  destruct old as [o|].
+  - (* the key is present *)
+    destruct (del_found P _ _ _ k i1 o Hd Hidx Edel) as [Hk Hpres].
+    assert (Hr : rec_fits (mkdel k)) by (apply rec_fits_mkdel; assumption).
+    pose proof (track_del_InvLog o m _ HL) as HL0. pose proof (track_del_room o m Hroom) as Hroom0.
+    destruct (write_record_spec P (mkdel k) s (track_del o m) HP HL0 Hroom0 Hr)
+      as (s1 & m1 & id & off & Ew & HL1 & Eo & Hoff & _ & _ & _ & _ & Ei & Esd & Em1 & Hrest & seq & pre & Et & Ed & Eop & _ & Hshape).
+    assert (Hd1 : DiskOK (s_disk s1)) by apply HL1.
+    rewrite Ew.
+    pose proof (del_index P _ _ (s_disk s) (s_disk s1) id off k i1 o Hd Hd1 Hidx Eo Edel) as Hidx2.
+    set (m2 := add_delbytes id (u32 (rsize (mkdel k))) m1).
+    destruct (finish_spec P (emit flat_ops (EIndex i1) s1) (set_idx m2 i1)) as (s' & Ef & Ems' & Eds' & Ets').
+    rewrite Ef. exists s'. split; [reflexivity|].
+    rewrite s_disk_emit in Eds'.
+    assert (Hsl : same_log (s_disk s1) (s_disk s')) by (rewrite Eds'; apply same_log_segs; reflexivity).
+    destruct Hrest as (_ & _ & Ro & _ & _ & Rl & _).
+    split; [|split; [congruence|split; [|split; [intros Hn; exfalso; exact (Hpres Hn)|right]]]].
+    + apply (Inv_intro P s' (set_idx m2 i1) Ems').
+      * apply (InvLog_same_log _ _ _ Hsl). apply set_idx_InvLog. apply add_delbytes_InvLog. exact HL1.
+      * cbn [m_seed m_idx set_idx]. change (m_seed m2) with (m_seed m1). rewrite Esd.
+        change (m_seed (track_del o m)) with (m_seed m). apply (idx_agrees_same_log _ _ _ _ _ Hsl Hidx2).
+      * rewrite Eds'. cbn [apply_ev d_lock set_index]. congruence.
+      * rewrite Eds'. reflexivity.
+      * rewrite Eds'. cbn [apply_ev d_overflow set_index]. congruence.
+    + intros k'. rewrite (same_log_abs _ _ Hsl), (abs_snoc _ _ _ Eo), sget_apply_rec. reflexivity.
+    + split; [exact Hpres|]. split; [exact Hk|]. exists id, seq, off, pre, i1.
+      assert (Et1 : s_trace (emit flat_ops (EIndex i1) s1) =
+                    s_trace s ++ pre ++ [EAppend id seq off (mkdel k); EIndex i1]).
+      { rewrite s_trace_emit, Et, <- !app_assoc. reflexivity. }
+      assert (Ed' : s_disk s' = fold_left (apply_ev flat_ops) (pre ++ [EAppend id seq off (mkdel k); EIndex i1]) (s_disk s)).
+      { rewrite Eds', Ed, !fold_left_app. reflexivity. }
+      destruct Ets' as [Ets'|(i & q & Ets')].
+      * exists []. rewrite app_nil_r. split; [congruence|]. split; [exact Hshape|]. split; [left; reflexivity|].
+        split; [exact Eop|]. split; [rewrite (same_log_olog _ _ Hsl); exact Eo|exact Ed'].
+      * exists [ESync (FSeg i q)]. split; [rewrite Ets', Et1, <- !app_assoc; reflexivity|].
+        split; [exact Hshape|]. split; [right; eauto|].
+        split; [exact Eop|]. split; [rewrite (same_log_olog _ _ Hsl); exact Eo|exact Ed'].
+  - (* the key is absent: nothing is written *)
+    destruct (del_absent P _ _ _ k i1 Hd Hidx Edel) as [-> Habs].
+    destruct (finish_spec P s m) as (s' & Ef & Ems' & Eds' & Ets').
+    rewrite Ef. exists s'. split; [reflexivity|].
+    split; [apply (Inv_same P s); [congruence|exact Eds'|exact HI]|].
+    split; [congruence|]. split; [|split; [intros _; exact Eds'|left; auto]].
+    intros k'. rewrite Eds'. destruct (key_eqb k' k) eqn:E; [|reflexivity].
+    apply key_eqb_eq in E. subst k'. exact Habs.
+Qed.
+
+Theorem delete_ok P (s : st) k :
+  params_ok P -> Inv P s -> (exists m, s_mem s = Some m /\ room m) -> Forall byte k ->
+  let '(s', o) := db_delete flat_ops P k s in
+  o = OOk /\ Inv P s' /\ s_mem s' <> None /\
+  (forall k', sget (abs (s_disk s')) k' = if key_eqb k' k then None else sget (abs (s_disk s)) k') /\
+  (sget (abs (s_disk s)) k = None -> s_disk s' = s_disk s).
+Proof.
+  intros HP HI Hm Hbk.
+  destruct (delete_ok_ex P s k HP HI Hm Hbk) as (s' & E & H1 & H2 & H3 & H4 & _).
+  rewrite E. auto.
+Qed.
+
+(* ================================================================================================ *)
+Print Assumptions put_ok.
+Print Assumptions put_rejected.
+Print Assumptions delete_ok.
+Print Assumptions get_ok.
+Print Assumptions get_append_ok.
+Print Assumptions has_ok.
+Print Assumptions count_ok.
+Print Assumptions items_ok.
+Print Assumptions sync_ok.
+Print Assumptions put_ok_ex.
+Print Assumptions delete_ok_ex.
+Print Assumptions write_record_spec.
